@@ -613,7 +613,7 @@ class CallMixin(object):
             elif isinstance(x, (SeqV, TupV, PyListV, ListV, IntV, BoolV, NoneV)) or (isinstance(x, RefV) and x.kind == 'list'):
                 if nm.py in ('get', 'setdefault', 'items', 'keys', 'peek', 'sent', '__call__'):
                     yield s, BoolV(False)
-                elif nm.py == '__len__':
+                elif nm.py in ('__len__', '__iter__'):
                     yield s, BoolV(not isinstance(x, (IntV, BoolV, NoneV)))
                 else:
                     raise Unsupported('hasattr(%r, %r)' % (x, nm.py))
@@ -627,6 +627,9 @@ class CallMixin(object):
         a = self.deref_list(args[0], st)
         if isinstance(a, (PyListV, TupV)):
             yield st, TupV(a.items)
+            return
+        if isinstance(a, SeqV) and a.kind == 'list':
+            yield st, SeqV(a.t, 'tuple')          # a tuple of ints of symbolic length
             return
         raise Unsupported('tuple(%r)' % (a,))
 
@@ -696,6 +699,13 @@ class CallMixin(object):
             yield s, SeqV(r, 'list')
             return
         raise Unsupported('reversed(%r)' % (a,))
+
+    def bi_map(self, args, kw, st, n):
+        f, xs = args[0], self.deref_list(args[1], st)
+        if not isinstance(xs, SeqV):
+            raise Unsupported('map over %r' % (xs,))
+        j = fresh('mj')
+        yield from self.map_over(lambda s_: self.call(f, [IntV(xs.t[j])], {}, s_, n), st.clone(), j, xs, st, False, n)
 
     def bi_sorted(self, args, kw, st, n):
         hook = self.spec.hints.get('sorted')
@@ -1119,6 +1129,9 @@ class CallMixin(object):
                 yield st, SeqV(z3.Empty(IntSeq), kind)
             else:
                 yield st, SeqV(parts[0] if len(parts) == 1 else z3.Concat(*parts), kind)
+            return
+        if sepc is not None and len(sepc) == 0 and isinstance(items, SeqV) and items.kind.startswith('chunks:'):
+            yield st, SeqV(items.t, 'bytes')          # the flat concatenation of the constant-length chunks
             return
         hook = self.spec.hints.get('join')
         if hook is not None:
